@@ -1,7 +1,8 @@
 import CalicoVerif.Util.Proto
 import CalicoVerif.Model.C28
 import CalicoVerif.Gen.C28
-/-! Driver for C28 (stateless). Settings: `-` absent, `nil` no BGPConfiguration, `e` empty string, else hex.
+/-! Driver for C28 (stateless except for the `dnew`/`dset` history ops:
+  `dnew <felix> <bgp> <classes e.g. iivn>` starts Felix with these pools; `dset <pool> <i|v|n>` changes a pool's class). Settings: `-` absent, `nil` no BGPConfiguration, `e` empty string, else hex.
   `felix <setting>`                         → `ipip noencap <stored value>`
   `fenv <setting> <ipip 0|1> <vxlan 0|1> <noencap 0|1>` → `progIPIP progNoEncap noEncapNeeded ipipEnabled vxlanEnabled`
   `bgp <setting>`                           → `ipip noencap`
@@ -48,8 +49,61 @@ def bit : String → Option Bool
   | "1" => some true
   | _ => none
 
-def step (_ : Unit) (line : String) : Unit × String :=
-  ((), match words line with
+structure DState where
+  fv : Option Str := none
+  bv : Option Str := none
+  dyn : Option Dyn := none
+
+def classOf : Char → Option PoolClass
+  | 'i' => some .ipip
+  | 'v' => some .vxlan
+  | 'n' => some .noEncap
+  | _ => none
+
+def classesOf (s : String) : Option (List PoolClass) :=
+  s.toList.foldr (fun c acc => match classOf c, acc with
+    | some x, some l => some (x :: l)
+    | _, _ => none) (some [])
+
+def classChar : PoolClass → String
+  | .ipip => "i"
+  | .vxlan => "v"
+  | .noEncap => "n"
+
+/-- `flags=<ipipEnabled><vxlanEnabled><noEncapNeeded> p0=<class><felix remote block><felix local block><bird> …` -/
+def showDyn (bv : Option Str) (d : Dyn) : String :=
+  let fl := encapFlags d.env
+  let pools := d.classes.zipIdx.map (fun x =>
+    let bird := birdPrograms (bgpPolicy Gen.bgpTable bv) x.1.modes.1 x.1.modes.2
+    s!"p{x.2}={classChar x.1}{showBool (d.programs (2 * x.2))}{showBool (d.programs (2 * x.2 + 1))}{showBool bird}")
+  s!"flags={showBool fl.1}{showBool fl.2.1}{showBool fl.2.2} " ++ joinWith " " pools
+
+def dynStep (st : DState) (line : String) : Option (DState × String) :=
+  match words line with
+  | ["dnew", f, b, cs] =>
+    match setting false f, setting true b, classesOf cs with
+    | some f, some b, some cs =>
+      let d := Dyn.start Gen.felixTable Gen.guards (felixValue Gen.felixTable f) cs
+      some ({ fv := f, bv := b, dyn := some d }, showDyn b d)
+    | _, _, _ => some (st, "bad-op")
+  | ["dset", p, c] =>
+    match st.dyn, p.toNat?, c.toList with
+    | some d, some p, [ch] =>
+      match classOf ch with
+      | some c =>
+        if p < d.classes.length then
+          let r := Dyn.setClass Gen.felixTable Gen.guards (felixValue Gen.felixTable st.fv) d p c
+          some ({ st with dyn := some r.1 }, (if r.2 then "restart " else "") ++ showDyn st.bv r.1)
+        else some (st, "bad-op")
+      | none => some (st, "bad-op")
+    | _, _, _ => some (st, "bad-op")
+  | _ => none
+
+def step (st : DState) (line : String) : DState × String :=
+  match dynStep st line with
+  | some r => r
+  | none =>
+  (st, match words line with
   | ["felix", f] =>
     match setting false f with
     | some f =>
@@ -79,4 +133,4 @@ def step (_ : Unit) (line : String) : Unit × String :=
     | _, _, _, _ => "bad-op"
   | _ => "bad-op")
 
-def main : IO Unit := run step ()
+def main : IO Unit := run step {}
